@@ -43,6 +43,7 @@ type Params struct {
 	Pad             int             // >0: every value is padded to exactly Pad bytes ("<id>|xxx…"): record sizes at chosen points
 	BadEnc          int             // >0: the Value of message number BadEnc (1-based) is an Encoder whose Encode() fails
 	Tomb            int             // >0: message number Tomb (1-based) is a tombstone: nil Value, its id travels in the key
+	IcptNil         int             // >0: the chain entry at this (1-based) position is a nil interceptor (calling it panics: contained like any panic)
 	IcptPanic       int             // >0: the interceptor at this (1-based) position of the chain panics after doing its work
 	Election        bool            // partition 0 goes through a leader election (env:leader-down / env:leader-up)
 	Big             int             // >0: message number Big (1-based) is larger than Producer.MaxMessageBytes (set to 200)
@@ -69,7 +70,7 @@ func Parse(v url.Values) (*Params, error) {
 		Idem: atoi(v, "idem", 0) == 1, RetryMax: atoi(v, "rm", 1), NMsgs: atoi(v, "nm", 2), NParts: atoi(v, "np", 1),
 		NBrokers: atoi(v, "nb", 1), FlushMsgs: atoi(v, "fm", 0), FlushMax: atoi(v, "fx", 0), FlushFreq: time.Duration(atoi(v, "ff", 0)) * time.Millisecond,
 		Backoff: time.Duration(atoi(v, "bo", 0)) * time.Millisecond, Policy: v.Get("policy"), SClose: atoi(v, "sclose", 0) == 1, BoFunc: atoi(v, "bofunc", 0) == 1, CloseAny: atoi(v, "closeany", 0) == 1,
-		LastAfter: atoi(v, "lastafter", 0) == 1, Big: atoi(v, "big", 0), Election: atoi(v, "election", 0) >= 1, ElectionAtStart: atoi(v, "election", 0) == 2, Icpt: atoi(v, "icpt", 0), Tomb: atoi(v, "tomb", 0), BadEnc: atoi(v, "badenc", 0), Pad: atoi(v, "pad", 0), IcptPanic: atoi(v, "icptpanic", 0),
+		LastAfter: atoi(v, "lastafter", 0) == 1, Big: atoi(v, "big", 0), Election: atoi(v, "election", 0) >= 1, ElectionAtStart: atoi(v, "election", 0) == 2, Icpt: atoi(v, "icpt", 0), IcptNil: atoi(v, "icptnil", 0), Tomb: atoi(v, "tomb", 0), BadEnc: atoi(v, "badenc", 0), Pad: atoi(v, "pad", 0), IcptPanic: atoi(v, "icptpanic", 0),
 		Acks: sarama.RequiredAcks(atoi(v, "acks", 1)), Sync: atoi(v, "sync", 0),
 	}
 	if p.Policy == "" {
@@ -286,6 +287,10 @@ func run(c *gx.Ctl, p *Params) *gx.Outcome {
 		conf.Net.MaxOpenRequests = 1
 	}
 	for i := 0; i < p.Icpt; i++ {
+		if p.IcptNil == i+1 {
+			conf.Producer.Interceptors = append(conf.Producer.Interceptors, nil)
+			continue
+		}
 		conf.Producer.Interceptors = append(conf.Producer.Interceptors, &icpt{r: r, idx: i, panic: p.IcptPanic == i+1})
 	}
 
